@@ -45,7 +45,21 @@ type addrBack struct {
 	Err  int   `json:"err"` // 1 = error, -1 = panic
 }
 
-func getAddr(fam string, atype int, m *stun.Message) (b addrBack) {
+func getAddr(fam string, atype int, m *stun.Message) (b addrBack) { return getAddrInto(fam, atype, m, 0) }
+
+// getAddrInto reads into a destination whose IP slice already has `prefill` bytes (a reused getter: it last held
+// an address of that size), 0 = fresh.
+func getAddrInto(fam string, atype int, m *stun.Message, prefill int) (b addrBack) {
+	pre := func() net.IP {
+		if prefill == 0 {
+			return nil
+		}
+		ip := make(net.IP, prefill)
+		for i := range ip {
+			ip[i] = 0xEE
+		}
+		return ip
+	}
 	defer func() {
 		if r := recover(); r != nil {
 			b = addrBack{IP: []int{}, Err: -1}
@@ -55,7 +69,7 @@ func getAddr(fam string, atype int, m *stun.Message) (b addrBack) {
 	var ip net.IP
 	var port int
 	if fam == "xor" {
-		var a stun.XORMappedAddress
+		a := stun.XORMappedAddress{IP: pre()}
 		if atype == int(stun.AttrXORMappedAddress) {
 			err = a.GetFrom(m)
 		} else {
@@ -65,23 +79,23 @@ func getAddr(fam string, atype int, m *stun.Message) (b addrBack) {
 	} else {
 		switch stun.AttrType(atype) {
 		case stun.AttrAlternateServer:
-			var a stun.AlternateServer
+			a := stun.AlternateServer{IP: pre()}
 			err = a.GetFrom(m)
 			ip, port = a.IP, a.Port
 		case stun.AttrResponseOrigin:
-			var a stun.ResponseOrigin
+			a := stun.ResponseOrigin{IP: pre()}
 			err = a.GetFrom(m)
 			ip, port = a.IP, a.Port
 		case stun.AttrOtherAddress:
-			var a stun.OtherAddress
+			a := stun.OtherAddress{IP: pre()}
 			err = a.GetFrom(m)
 			ip, port = a.IP, a.Port
 		case stun.AttrMappedAddress:
-			var a stun.MappedAddress
+			a := stun.MappedAddress{IP: pre()}
 			err = a.GetFrom(m)
 			ip, port = a.IP, a.Port
 		default:
-			var a stun.MappedAddress
+			a := stun.MappedAddress{IP: pre()}
 			err = a.GetFromAs(m, stun.AttrType(atype))
 			ip, port = a.IP, a.Port
 		}
@@ -128,12 +142,17 @@ func emitAddr(tw *traceWriter, fam string, atype int, tid [stun.TransactionIDSiz
 		dm, ok := decodeCopy(m.Raw, 0)
 		if ok {
 			line["back"] = getAddr(fam, atype, dm)
+			// the same read into getters that were last used for a 4-byte / a 16-byte address
+			line["back4"] = getAddrInto(fam, atype, dm, 4)
+			line["back16"] = getAddrInto(fam, atype, dm, 16)
 		} else {
 			line["back"] = addrBack{IP: []int{}, Err: 2}
+			line["back4"], line["back16"] = line["back"], line["back"]
 		}
 	} else {
 		line["enc"] = []int{}
 		line["back"] = addrBack{IP: []int{}, Err: 1}
+		line["back4"], line["back16"] = line["back"], line["back"]
 	}
 	tw.emit(line)
 	// (c): bytes from the reference encoder, read by the library
@@ -144,7 +163,7 @@ func emitAddr(tw *traceWriter, fam string, atype int, tid [stun.TransactionIDSiz
 			back = getAddr(fam, atype, dm)
 		}
 		tw.emit(map[string]interface{}{"k": "addr", "src": "ref", "fam": fam, "atype": atype, "tid": ints(tid[:]),
-			"ip": ints(ip), "port": port, "adderr": 0, "enc": refEnc, "back": back})
+			"ip": ints(ip), "port": port, "adderr": 0, "enc": refEnc, "back": back, "back4": back, "back16": back})
 	}
 }
 
@@ -277,13 +296,15 @@ type unkBack struct {
 	Err  int   `json:"err"`
 }
 
-func getUnk(m *stun.Message) (b unkBack) {
+func getUnk(m *stun.Message) (b unkBack) { return getUnkInto(m, nil) }
+
+func getUnkInto(m *stun.Message, dest stun.UnknownAttributes) (b unkBack) {
 	defer func() {
 		if r := recover(); r != nil {
 			b = unkBack{List: []int{}, Err: -1}
 		}
 	}()
-	var a stun.UnknownAttributes
+	a := dest
 	if err := a.GetFrom(m); err != nil {
 		return unkBack{List: []int{}, Err: 1}
 	}
@@ -309,7 +330,12 @@ func emitUnk(tw *traceWriter, list []int, refEnc []int) {
 		line["enc"] = ints(v)
 		if dm, ok := decodeCopy(m.Raw, 0); ok {
 			line["back"] = getUnk(dm)
+			// a getter that last held a longer list
+			line["back_reused"] = getUnkInto(dm, stun.UnknownAttributes{1, 2, 3, 4, 5, 6, 7, 8, 9, 10, 11, 12, 13, 14, 15, 16, 17, 18, 19, 20, 21, 22, 23, 24, 25, 26, 27, 28, 29, 30, 31, 32, 33, 34, 35, 36, 37, 38, 39, 40, 41, 42, 43, 44, 45, 46, 47, 48, 49, 50, 51, 52, 53, 54, 55, 56, 57, 58, 59, 60, 61, 62, 63, 64, 65, 66, 67, 68, 69, 70})
 		}
+	}
+	if _, has := line["back_reused"]; !has {
+		line["back_reused"] = line["back"]
 	}
 	tw.emit(line)
 	if refEnc != nil {
@@ -318,7 +344,7 @@ func emitUnk(tw *traceWriter, list []int, refEnc []int) {
 		if dm, ok := decodeCopy(rawWithAttr(tid, int(stun.AttrUnknownAttributes), unints(refEnc)), 0); ok {
 			back = getUnk(dm)
 		}
-		tw.emit(map[string]interface{}{"k": "unk", "src": "ref", "list": list, "adderr": 0, "enc": refEnc, "back": back})
+		tw.emit(map[string]interface{}{"k": "unk", "src": "ref", "list": list, "adderr": 0, "enc": refEnc, "back": back, "back_reused": back})
 	}
 }
 
